@@ -109,6 +109,11 @@ func runWithdraw(ctx *action.Context, tx action.RawTx) (bool, action.Response) {
 		return helpers.LogAndReturnFalse(ctx.Logger, action.ErrUnserializable, withdraw.Tags(), err)
 	}
 
+	// delivered transactions are not validated: an unregistered currency
+	// gives a coin without amount
+	if !withdraw.WithdrawAmount.IsValid(ctx.Currencies) {
+		return helpers.LogAndReturnFalse(ctx.Logger, action.ErrInvalidAmount, withdraw.Tags(), errors.New(withdraw.WithdrawAmount.String()))
+	}
 	withDrawCoin := withdraw.WithdrawAmount.ToCoinWithBase(ctx.Currencies)
 	err = ctx.RewardMasterStore.RewardCm.WithdrawRewards(withdraw.ValidatorAddress, withDrawCoin.Amount)
 	if err != nil {
